@@ -21,8 +21,10 @@ Sweeps (all complete for their stated bound, nothing sampled):
   L  layout sweep: every structure with k <= KL in the compact (no blanks) and the upper-case style.
 
 Only well-formed, well-typed, standard-conforming strings are kept (judged by the harness's own Fortran text
-model `vf.exprsem.texteval(allow_ext=False)` on a typed valuation; in thorough every string additionally goes
-through gfortran).
+model `vf.exprsem.texteval(allow_ext=False)` on a typed valuation).  Conformance of that model: gfortran 12
+evaluates the same masked grid (hash of all values compared): thorough = every string with <= 3 operators plus
+every 4-operator string without a parenthesised group; quick = every string with <= 1 operator plus the S/E
+sweeps with 2.  A disagreement is a HARNESS-ERROR.
 
 Oracle, per string s and per valuation sigma of a complete small grid (guarded: valuations on which Fortran
 leaves the value undefined -- zero divisor, 0**negative, INTEGER overflow -- or on which a real intermediate is
@@ -341,7 +343,7 @@ def bounds(ctx_or_tier):
     quick = ctx_or_tier == 'quick' if isinstance(ctx_or_tier, str) else ctx_or_tier.quick
     if quick:
         return dict(K=3, KR=1, KE=2, KO=1, KOG=1, KL=1, KT=1, KG=1, KGS=2)
-    return dict(K=4, KR=2, KE=3, KO=2, KOG=1, KL=2, KT=2, KG=4, KGS=4)
+    return dict(K=4, KR=2, KE=3, KO=2, KOG=1, KL=2, KT=2, KG=3, KGS=3)
 
 
 def make_case(ops, group, lead, glead, operands, style='spaced', sweep='S'):
@@ -1108,8 +1110,13 @@ def run(ctx):
     phase['shrink'] = round(ctx.elapsed() - t0, 1)
     t0 = ctx.elapsed()
     # conformance of the text model: gfortran evaluates the same masked grid of every string
-    gf_set = [n for n in order if results[n]['ndef'] > 0 and (len(cases[n]['ops']) <= B['KG'] or
-                                                        (cases[n]['sweep'] in 'SE' and len(cases[n]['ops']) <= B['KGS']))]
+    def in_gf(c):
+        k = len(c['ops'])
+        if ctx.quick:        # quick: every string with <= KG operators + the structure sweeps up to KGS
+            return k <= B['KG'] or (c['sweep'] in 'SE' and k <= B['KGS'])
+        # thorough: every string with <= KG operators + every longer string without a parenthesised group
+        return k <= B['KG'] or not c['group']
+    gf_set = [n for n in order if results[n]['ndef'] > 0 and in_gf(cases[n])]
     items = [(cases[n]['s'], case_vars(cases[n]), results[n]['mask']) for n in gf_set]
     gchunks = [items[i:i + GF_UNIT] for i in range(0, len(items), GF_UNIT)]
     got = [h for ch in ctx.pmap(_gf_chunk, gchunks, chunksize=1) for h in ch]
@@ -1122,7 +1129,7 @@ def run(ctx):
     ctx.require(nontrivial >= n // 2, f'only {nontrivial} of {n} strings are non-trivial')
     ctx.require(len(fp_refused) <= n // 50, f'frontend refused {len(fp_refused)} strings, e.g. {fp_refused[:5]}')
     ctx.require(by_status['refused'] <= n // 5, f'parse_expr refused {by_status["refused"]} of {n} strings')
-    ctx.require(len(got) >= (1000 if ctx.quick else 80000), f'only {len(got)} strings validated against gfortran')
+    ctx.require(len(got) >= (1000 if ctx.quick else 30000), f'only {len(got)} strings validated against gfortran')
     if fnotes:
         ctx.note(f'{len(fnotes)} strings on which the FP frontend tree and Fortran semantics disagree (not judged here), '
                  f'e.g. {fnotes[:3]}')
